@@ -344,7 +344,8 @@ def diagnostics_rule(crate, syn, prop="C16"):
     if b is None:
         r.fail(prop, "anchor-missing typescript", "derive entry point not found")
         return r
-    calls = [M.callee_res(t) or "" for _, t in b.calls()]
+    group = [x for x in crate.bodies if x.path in crate.owned_by("typescript")]
+    calls = [M.callee_res(t) or "" for x in group for _, t in x.calls()]
     has_entry = any(c.endswith("entry") for c in calls)
     has_tce = any(c.endswith("syn::Error::to_compile_error") or c.endswith("Error::into_compile_error") for c in calls)
     r.inst(fn="typescript", calls_entry=has_entry, converts_error=has_tce)
@@ -352,17 +353,29 @@ def diagnostics_rule(crate, syn, prop="C16"):
         r.fail(prop, "edge-missing typescript -> entry", "typescript() does not call entry()", b.file(), b.line())
     if not has_tce:
         r.fail(prop, "error-not-diagnosed typescript", "typescript() does not convert the syn::Error with to_compile_error()", b.file(), b.line())
-    en = syn.fn("entry", "macros/src/lib.rs")
+    # entry(): the match on the parsed item has arms for structs and enums; whatever else the item is leads to an error
+    en = crate.body("entry")
     ok = False
     if en is not None:
-        for e in S.events(en, "match"):
-            if S.squash(e["scrut"]) == "input":
-                pats = [S.squash(a["pat"]) for a in e["arms"]]
-                wild = [a for a in e["arms"] if S.squash(a["pat"]) == "_"]
-                ok = bool(wild) and "syn_err" in wild[0]["body"] and any(p.startswith("Item::Struct") for p in pats) and any(p.startswith("Item::Enum") for p in pats)
+        ITEM_ENUM, ITEM_STRUCT = 1, 9       # syn::Item: Const, Enum, ExternCrate, Fn, ForeignMod, Impl, Macro, Mod, Static, Struct, ..
+        for blk in range(en.n):
+            sw = en.term(blk)
+            if sw["k"] != "switch" or en.is_cleanup(blk) or op_local(sw["discr"]) is None:
+                continue
+            for bb, i, d in M.def_sites(en, op_local(sw["discr"])):
+                if i == "term" or d["rv"]["k"] != "discr" or "syn::Item" not in en.local_ty(d["rv"]["pl"]["l"]):
+                    continue
+                vals = {v for v, _ in sw["targets"]}
+                if not ({ITEM_ENUM, ITEM_STRUCT} <= vals):
+                    continue
+                other = sw["otherwise"]
+                named = {tg for _, tg in sw["targets"]}
+                region = en.reachable_from([other], stop=lambda x: x in named)
+                errs = M.error_blocks(en) | {x for x, t in en.calls() if fn_matches(t, r"syn::Error::new(_spanned)?$", r"syn::error::Error::new")}
+                ok = ok or (bool(region & errs) and not any(fn_matches(en.term(x), r"struct_def$|enum_def$") for x in region if en.term(x)["k"] == "call"))
     r.inst(fn="entry", fallback_arm_is_error=ok)
     if not ok:
-        r.fail(prop, "unsupported-item-not-rejected entry", "entry()'s fallback arm is not a syn_err!", en["file"] if en else None, en["line"] if en else None)
+        r.fail(prop, "unsupported-item-not-rejected entry", "entry()'s fallback arm is not an error", en.file() if en else None, en.line() if en else None)
     r.floor = 2
     return r
 
